@@ -454,6 +454,12 @@ impl ContinuityStore {
         event_log: Arc<EventLog>,
     ) -> Result<Self, String> {
         let index = load_index(&index_path(&data_dir)).unwrap_or_default();
+        #[cfg(feature = "verif")]
+        let (sender, _receiver) = broadcast::channel(rip_kernel::verif::knob(
+            "event_channel_capacity",
+            EVENT_CHANNEL_CAPACITY,
+        ));
+        #[cfg(not(feature = "verif"))]
         let (sender, _receiver) = broadcast::channel(EVENT_CHANNEL_CAPACITY);
         let stream_cache = ContinuityStreamCache::new(&data_dir);
         Ok(Self {
